@@ -761,11 +761,90 @@ def keyfile_table(repo):
     return {"KeyFileShape.lean": {"changed": changed, "shape": t}}
 
 
+def _skeleton(fn, calls):
+    """control skeleton of a function: its branches, loops, handlers and ways out (continue / early return / raise), and the calls whose
+    (dotted) name ends in one of `calls`, in source order. Tests are kept as source text. Statements that contain none of these — a
+    local name, a log line — leave the skeleton as it is."""
+    def interesting(node):
+        out = []
+        for c in ast.walk(node):
+            if isinstance(c, ast.Call):
+                n = _dotted(c.func)
+                for want in calls:
+                    if n == want or n.endswith("." + want):
+                        out.append(want)
+        return out
+
+    def toks(stmts, last_top=None):
+        out = []
+        for st in stmts:
+            if isinstance(st, ast.Expr) and isinstance(st.value, ast.Constant):
+                continue
+            if isinstance(st, ast.If):
+                out += ["if[%s]" % ast.unparse(st.test)] + toks(st.body)
+                if st.orelse:
+                    out += ["else"] + toks(st.orelse)
+                out += ["end"]
+            elif isinstance(st, (ast.For, ast.While)):
+                out += ["loop[%s]" % (ast.unparse(st.iter) if isinstance(st, ast.For) else ast.unparse(st.test))] + toks(st.body) + ["end"]
+            elif isinstance(st, ast.Try):
+                out += ["try"] + toks(st.body)
+                for h in st.handlers:
+                    out += ["except:" + (ast.unparse(h.type) if h.type is not None else "*")] + toks(h.body)
+                if st.orelse:
+                    out += ["else"] + toks(st.orelse)
+                if st.finalbody:
+                    out += ["finally"] + toks(st.finalbody)
+                out += ["end"]
+            elif isinstance(st, ast.With):
+                out += ["with[%s]" % ", ".join(ast.unparse(i.context_expr) for i in st.items)] + toks(st.body) + ["end"]
+            elif isinstance(st, ast.Continue):
+                out.append("continue")
+            elif isinstance(st, ast.Break):
+                out.append("break")
+            elif isinstance(st, ast.Raise):
+                out.append("raise" + (":" + _dotted(st.exc.func if isinstance(st.exc, ast.Call) else st.exc) if st.exc is not None else ""))
+            elif isinstance(st, ast.Return):
+                out += interesting(st)
+                if st is not last_top:
+                    out.append("return")
+            elif isinstance(st, ast.Assign) and len(st.targets) == 1 and isinstance(st.targets[0], ast.Name) and isinstance(st.value, ast.Tuple) \
+                    and all(isinstance(e, (ast.Name, ast.Attribute)) for e in st.value.elts):
+                out.append("let[%s=%s]" % (st.targets[0].id, ast.unparse(st.value)))      # a tuple of classes a later test refers to
+            else:
+                out += interesting(st)
+        return out
+    body = [b for b in fn.body if not (isinstance(b, ast.Expr) and isinstance(b.value, ast.Constant))]
+    return toks(body, body[-1] if body else None)
+
+
+def load_validate_shape(repo):
+    """control skeletons of the load / validation path the model of Cinco/Config/Ops.lean follows"""
+    core_mod = _parse(repo, "core.py")
+    cfg, schema, field = _class(core_mod, "Config"), _class(core_mod, "Schema"), _class(core_mod, "Field")
+    return {"Config.load_tree": _skeleton(_method(cfg, "load_tree"), ("_get_field", "to_python", "_set_value", "validate", "__setdefault__")),
+            "Config.validate": _skeleton(_method(cfg, "validate"), ("_validate",)),
+            "Schema._validate": _skeleton(_method(schema, "_validate"), ("_is_feature_enabled", "_validate_field", "validator", "append")),
+            "Schema._validate_field": _skeleton(_method(schema, "_validate_field"), ("__getval__", "validate")),
+            "Field.validate": _skeleton(_method(field, "validate"), ("_validate", "validator"))}
+
+
+def load_validate_table(repo):
+    t = load_validate_shape(repo)
+    lines = ["/- GENERATED by harness/extract.py from /repo on every run — do not edit. -/", "namespace Cinco.Generated", "",
+             "/-- control skeletons of `Config.load_tree`, `Config.validate`, `Schema._validate`, `Schema._validate_field`, `Field.validate`",
+             "    (cincoconfig/core.py): branches, loops, handlers, ways out and the calls that matter, in source order -/",
+             "def loadValidateShape : List (String × List String) := [%s]" % ", ".join("(%s, [%s])" % (lstr(k), ", ".join(lstr(x) for x in v)) for k, v in t.items()),
+             "", "end Cinco.Generated"]
+    changed = _write("LoadValidateShape.lean", "\n".join(lines) + "\n")
+    return {"LoadValidateShape.lean": {"changed": changed, "shape": t}}
+
+
 def run(repo):
     """regenerate every table; a table whose source the translator cannot read any more is left as it was (the last reading) and
     reported under "unreadable": the obligations over it are then not established for the current source"""
     notes = {}
-    for step in (tables, overrides, effects, stub_effects, defaults_table, fast_paths_table, registration_table, parser_table, keyfile_table):
+    for step in (tables, overrides, effects, stub_effects, defaults_table, fast_paths_table, registration_table, parser_table, keyfile_table, load_validate_table):
         try:
             notes.update(step(repo))
         except Unknown as e:
